@@ -105,14 +105,14 @@ PROPS = {
                         "collision resistance only as the explicit disjunct (Collision H; experimental configuration: or a zero-digest preimage)"],
     },
     "C06": {
-        "coq_deps": ["DirSound", "HashingBinding", "HistEnd", "DirSoundReach"],
+        "coq_deps": ["DirSound", "HashingBinding", "HistEnd", "DirSoundReach", "Witness"],
         "steps": [{"sub": "advdir", "quick": [0], "thorough": [1]}],
         "rule": "real directories (both configurations) over multi-epoch histories with a label updated in every epoch (versions crossing powers of two); a server holding key and tree assembles: every older version with every ancestor as anchor of the freshness proof; wrong value (with and without recomputed nonce), epoch +-1, version+1 on the same leaves, version beyond the epoch, a current epoch below the version, swapped existence/marker/freshness parts, bit-flipped and truncated VRF proofs, another label's proof or leaf, the honest proof against another epoch's root; histories with the newest 1-2 entries dropped (markers recomputed consistently, forged absences at every anchor, or markers unchanged), oldest dropped (complete / most-recent-n / n-1), reordered, duplicated, removed middle entry, exchanged or altered epochs, replaced values (with and without nonce), tombstone substitution in both modes, version 1 as tombstone with an earlier epoch (K2), omitted / surplus / swapped marker proofs, missing previous-version proofs, most-recent parameters below/equal/above the number of versions; plus trees built through Azks with the superseded version retired in time, one epoch late, or never; every VRF verification is evaluated by the implementation's primitive (vchk table), every verdict and result recomputed by the extracted model verifier; accepted => result must equal the truth table",
         "assumptions": ["VrfUnique (a verifying VRF proof's output is the function value) is a premise of the theorem; collision resistance appears as the explicit disjunct Bad",
                         "the honest tree is described by what it holds at the label's VRF labels (premises tree_fresh / tree_stale), established for the code by the C01 state correspondence"],
     },
     "C07": {
-        "coq_deps": ["DirSound", "HashingBinding", "HistEnd", "DirSoundReach"],
+        "coq_deps": ["DirSound", "HashingBinding", "HistEnd", "DirSoundReach", "Witness"],
         "steps": [{"sub": "advdir", "quick": [0], "thorough": [1]}],
         "rule": "real directories (both configurations) over multi-epoch histories with a label updated in every epoch (versions crossing powers of two); a server holding key and tree assembles: every older version with every ancestor as anchor of the freshness proof; wrong value (with and without recomputed nonce), epoch +-1, version+1 on the same leaves, version beyond the epoch, a current epoch below the version, swapped existence/marker/freshness parts, bit-flipped and truncated VRF proofs, another label's proof or leaf, the honest proof against another epoch's root; histories with the newest 1-2 entries dropped (markers recomputed consistently, forged absences at every anchor, or markers unchanged), oldest dropped (complete / most-recent-n / n-1), reordered, duplicated, removed middle entry, exchanged or altered epochs, replaced values (with and without nonce), tombstone substitution in both modes, version 1 as tombstone with an earlier epoch (K2), omitted / surplus / swapped marker proofs, missing previous-version proofs, most-recent parameters below/equal/above the number of versions; plus trees built through Azks with the superseded version retired in time, one epoch late, or never; every VRF verification is evaluated by the implementation's primitive (vchk table), every verdict and result recomputed by the extracted model verifier; accepted => result must equal the truth table",
         "partial": None,
@@ -281,14 +281,14 @@ PROPS = {
                         "collision resistance only as the explicit disjunct (Collision H; experimental configuration: or a zero-digest preimage)"],
     },
     "C06": {
-        "coq_deps": ["DirSound", "HashingBinding", "HistEnd", "DirSoundReach"],
+        "coq_deps": ["DirSound", "HashingBinding", "HistEnd", "DirSoundReach", "Witness"],
         "steps": [{"sub": "advdir", "quick": [0], "thorough": [1]}],
         "rule": "real directories (both configurations) over multi-epoch histories with a label updated in every epoch (versions crossing powers of two); a server holding key and tree assembles: every older version with every ancestor as anchor of the freshness proof; wrong value (with and without recomputed nonce), epoch +-1, version+1 on the same leaves, version beyond the epoch, a current epoch below the version, swapped existence/marker/freshness parts, bit-flipped and truncated VRF proofs, another label's proof or leaf, the honest proof against another epoch's root; histories with the newest 1-2 entries dropped (markers recomputed consistently, forged absences at every anchor, or markers unchanged), oldest dropped (complete / most-recent-n / n-1), reordered, duplicated, removed middle entry, exchanged or altered epochs, replaced values (with and without nonce), tombstone substitution in both modes, version 1 as tombstone with an earlier epoch (K2), omitted / surplus / swapped marker proofs, missing previous-version proofs, most-recent parameters below/equal/above the number of versions; plus trees built through Azks with the superseded version retired in time, one epoch late, or never; every VRF verification is evaluated by the implementation's primitive (vchk table), every verdict and result recomputed by the extracted model verifier; accepted => result must equal the truth table",
         "assumptions": ["VrfUnique (a verifying VRF proof's output is the function value) is a premise of the theorem; collision resistance appears as the explicit disjunct Bad",
                         "the honest tree is described by what it holds at the label's VRF labels (premises tree_fresh / tree_stale), established for the code by the C01 state correspondence"],
     },
     "C07": {
-        "coq_deps": ["DirSound", "HashingBinding", "HistEnd", "DirSoundReach"],
+        "coq_deps": ["DirSound", "HashingBinding", "HistEnd", "DirSoundReach", "Witness"],
         "steps": [{"sub": "advdir", "quick": [0], "thorough": [1]}],
         "rule": "real directories (both configurations) over multi-epoch histories with a label updated in every epoch (versions crossing powers of two); a server holding key and tree assembles: every older version with every ancestor as anchor of the freshness proof; wrong value (with and without recomputed nonce), epoch +-1, version+1 on the same leaves, version beyond the epoch, a current epoch below the version, swapped existence/marker/freshness parts, bit-flipped and truncated VRF proofs, another label's proof or leaf, the honest proof against another epoch's root; histories with the newest 1-2 entries dropped (markers recomputed consistently, forged absences at every anchor, or markers unchanged), oldest dropped (complete / most-recent-n / n-1), reordered, duplicated, removed middle entry, exchanged or altered epochs, replaced values (with and without nonce), tombstone substitution in both modes, version 1 as tombstone with an earlier epoch (K2), omitted / surplus / swapped marker proofs, missing previous-version proofs, most-recent parameters below/equal/above the number of versions; plus trees built through Azks with the superseded version retired in time, one epoch late, or never; every VRF verification is evaluated by the implementation's primitive (vchk table), every verdict and result recomputed by the extracted model verifier; accepted => result must equal the truth table",
         "partial": "Default and AllowMissingValues modes are proved for Complete and MostRecent(r) on honestly maintained trees (AllowMissingValues up to the known class K2, which the theorem states as its exception); trees on which a superseded version is retired late or never are decided by the adversarial harness (oracle + verifier correspondence)",
